@@ -7,8 +7,12 @@
    computation in Proofs/EcdsaInstP.v.  The same code runs (extracted) against pycoin in the
    correspondence run — that is its only tie to Curve.py/Point.py; property C02 verifies those files.
    No proofs here except the two one-line membership facts needed to build points. *)
-From PV Require Import Base.Bytes Base.Outcome Model.Ecdsa Model.Rfc6979.
+From PV Require Import Base.Bytes Base.Outcome Gen.GenCurvesC01 Model.Ecdsa Model.Rfc6979.
 Local Open Scope Z_scope.
+
+(* rfc6979.deterministic_generate_k with its default hash_f (digest size from the regenerated table) *)
+Definition default_gen_k (hmac : bytes -> bytes -> bytes) (kfuel : nat) : Z -> Z -> Z -> outcome Z :=
+  deterministic_generate_k hmac gen_rfc6979_hash_size kfuel.
 
 Record curve : Set := mkCurve { cp : Z; ca : Z; cb : Z; cgx : Z; cgy : Z; cn : Z }.
 
@@ -141,8 +145,7 @@ Section Inst.
   Section WithHmac.
     Variable hmac : bytes -> bytes -> bytes.
     (* fuel of the RFC 6979 retry loop is the caller's *)
-    Definition i_gen_k (kfuel : nat) : Z -> Z -> Z -> outcome Z :=
-      deterministic_generate_k hmac 32 kfuel.
+    Definition i_gen_k (kfuel : nat) : Z -> Z -> Z -> outcome Z := default_gen_k hmac kfuel.
 
     Definition i_verify (xy : raw) (val r s : Z) : outcome bool :=
       (* self.Point(..) is built only when the checks before it pass: the option is computed lazily by
